@@ -1,6 +1,7 @@
 SPECIFICATION Spec
 CONSTANTS
   GeomStride = 1
+  AllUnits = FALSE
 CONSTRAINT Export
 INVARIANT LawClosedContains
 INVARIANT LawClosedMonotone
